@@ -334,6 +334,8 @@ class Interp:
             return Fn("lib", name=fq)
         if fq in ("copy.deepcopy", "copy.copy"):
             return Fn("lib", name="identity")
+        if fq == "re.compile":
+            return Fn("lib", name="re.compile")
         if fq.startswith("numpy.") or fq.startswith("math.") or fq.startswith("datetime.") or fq.startswith("dateutil.") or fq.startswith("posixpath."):
             return Fn("lib", name=fq)
         if root in ("numpy", "math", "datetime", "operator", "copy", "itertools", "re", "dateutil", "posixpath", "json", "fsspec"):
@@ -490,6 +492,12 @@ class Interp:
         for x in e.values:
             last = self.eval(x, sc)
             t = self.truth(last)
+            if t is None and isinstance(last, Leaf) and len(e.values) == 2 and x is e.values[0]:
+                # <scalar> or <default> / <scalar> and <then>: the scalar's own truth value selects the operand
+                other = self.eval(e.values[1], sc)
+                if is_and:
+                    return Choice([other, last], [f"{'.'.join(last.src)} truthy", f"{'.'.join(last.src)} falsy"])
+                return Choice([last, other], [f"{'.'.join(last.src)} truthy", f"{'.'.join(last.src)} falsy"])
             if t is None:
                 return Top("bool op on unknown", deps=self.leaves(last))
             if is_and and not t:
@@ -934,7 +942,7 @@ class Interp:
             # case split: a name bound to a small choice of constants forks the rest of the block
             if isinstance(st, ast.Assign) and len(st.targets) == 1 and isinstance(st.targets[0], ast.Name):
                 v = sc.vars.get(st.targets[0].id)
-                if isinstance(v, Choice) and 1 < len(v.alts) <= 8 and all(isinstance(a, Const) for a in v.alts) and stmts[i + 1:]:
+                if isinstance(v, Choice) and 1 < len(v.alts) <= 24 and all(isinstance(a, Const) for a in v.alts) and stmts[i + 1:]:
                     cases = []  # (value, merged label)
                     for alt, lab in zip(v.alts, v.labels):
                         for c in cases:
@@ -1021,6 +1029,22 @@ class Interp:
         if isinstance(st, ast.Raise):
             raise _Raise(short(st, 50))
         if isinstance(st, (ast.Import, ast.ImportFrom)):
+            return
+        if isinstance(st, ast.Try):
+            # shapes are inferred for the path on which the body completes (well-formed input); a body that
+            # certainly raises is decided by its handlers
+            self.assumptions.add("try statements: shapes follow the path on which the protected block does not raise")
+            try:
+                self.exec_block(st.body, sc, yields)
+            except _Raise:
+                if not st.handlers:
+                    raise
+                self.exec_block(st.handlers[0].body, sc, yields)
+            else:
+                self.exec_block(st.orelse, sc, yields)
+            finally:
+                if st.finalbody:
+                    self.exec_block(st.finalbody, sc, yields)
             return
         raise ShapeError(f"statement outside the modelled fragment: {short(st, 60)}")
 
